@@ -274,6 +274,20 @@ def run (d : DF) (ops : List Op) : Except RefErr DF := ops.foldlM apply d
 def create (names : List String) (rows : List Row) : Except RefErr DF :=
   if rows.all (fun r => r.length == names.length) then .ok ⟨names, rows⟩ else .error .widthMismatch
 
+/-- the field names of a list of `Row` objects in order of first appearance (`_infer_schema` per row, `_merge_type` across
+rows: the fields of the rows so far, then the new ones of the next row) -/
+def unionNames (rows : List (List (String × SV))) : List String :=
+  rows.foldl (fun acc r => r.foldl (fun acc kv => if acc.contains kv.1 then acc else acc ++ [kv.1]) acc) []
+
+/-- `createDataFrame(list of Row objects)` with an inferred schema (REPAIRED): every row is re-keyed against the merged schema
+by field name; a field the row does not have is null -/
+def createFromRows (rows : List (List (String × SV))) : DF :=
+  ⟨unionNames rows, rows.map fun r => (unionNames rows).map fun n => (r.lookup n).getD .null⟩
+
+/-- the code as it was: every `Row` passed on as it is (kept for the defect witness) -/
+def createFromRowsOld (rows : List (List (String × SV))) : DF :=
+  ⟨unionNames rows, rows.map fun r => r.map (·.2)⟩
+
 def range (start stop : Int) (step : Nat) : DF :=
   ⟨["id"], (List.range (if step = 0 then 0 else ((stop - start).toNat + step - 1) / step)).map fun (i : Nat) => [.int (start + (i : Int) * (step : Int))]⟩
 
